@@ -436,6 +436,23 @@ class Abort(Exception):
     pass
 
 
+def _wait_driver_reply(cl, serial):
+    """Like Client.wait_reply, but the reply must also come from org.freedesktop.DBus: an
+    eavesdropper also sees other clients' replies, whose REPLY_SERIAL (a serial of ANOTHER
+    connection) can equal the serial of its own barrier call.  Everything else stays in the inbox,
+    in order."""
+    keep = []
+    try:
+        while True:
+            rec = cl.recv(client.WATCHDOG)
+            k = rec.msg.known()
+            if rec.msg.type in (2, 3) and k.get(5) == serial and k.get(7) == DRIVER.encode():
+                return rec
+            keep.append(rec)
+    finally:
+        cl.inbox[:0] = keep
+
+
 class Scn(object):
     """One daemon lifetime: executes (and, with an rng, generates) the ops of a script."""
 
@@ -513,11 +530,11 @@ class Scn(object):
     def observe(self, sender):
         """Ordering barrier (DESIGN 1.4): sender round-trip, then every other client's round-trip;
         returns {client index: [Received before its barrier reply]}."""
-        self.clients[sender].barrier()
+        _wait_driver_reply(self.clients[sender], self.clients[sender].bus_call_async(b"GetId"))
         others = [i for i in self.live() if i != sender]
         ser = [(i, self.clients[i].bus_call_async(b"GetId")) for i in others]
         for i, s in ser:
-            self.clients[i].wait_reply(s)
+            _wait_driver_reply(self.clients[i], s)
         self.part.count("barriers", len(others) + 1)
         return {i: self._drain(i) for i in self.live()}
 
